@@ -274,6 +274,16 @@ def hostile_announcements(c12, rng):
         out.append(("odd-name-srv:" + nm, [{"src": hostile_ip, "msg": {"answers": [], "additional": [c12.rec_srv(labels, 7000, host), c12.rec_a(host, hostile_ip)], "compress": False}}]))
         out.append(("odd-name-ptr-target:" + nm, [{"src": hostile_ip, "msg": {"answers": [c12.rec_ptr("_airplay._tcp.local", labels)], "additional": [], "compress": False}}]))
         out.append(("odd-name-a:" + nm, [{"src": hostile_ip, "msg": {"answers": [], "additional": [c12.rec_a(labels, hostile_ip)], "compress": False}}]))
+    # TXT keys that are not ASCII; a sleep proxy whose name lacks the "<numbers> <name>" form
+    for ty in ("_airplay._tcp.local", "_companion-link._tcp.local", "_raop._tcp.local"):
+        inst = "evil" if ty != "_raop._tcp.local" else "EEEEEEEEEEEE@evil"
+        out.append(("non-ascii-key:" + ty, [svc(ty, [["hex:6bff", "76"], kv("deviceid", "EE:EE:EE:EE:EE:EE")], inst=inst)]))
+        out.append(("non-ascii-key-utf8:" + ty, [svc(ty, [["hex:6bc3bf", "76"]], inst=inst)]))
+    out.append(("sleep-proxy-no-space", [{"src": hostile_ip, "msg": {"answers": [c12.rec_ptr(c12.SLEEP, ["evilnospace"] + c12.L(c12.SLEEP))],
+                                                                       "additional": [c12.rec_srv(["evilnospace"] + c12.L(c12.SLEEP), 0, ["evilhost", "local"]), c12.rec_txt(["evilnospace"] + c12.L(c12.SLEEP), []), c12.rec_a(["evilhost", "local"], hostile_ip)], "compress": False}}]))
+    # instance names with control characters / dots / spaces only
+    for nm_, inst_ in (("ctrl-char", "a\x01b"), ("nul", "a\x00b"), ("dot-in-label", "a.b"), ("space-only", " "), ("del", "a\x7fb")):
+        out.append(("odd-instance-%s" % nm_, [svc("_airplay._tcp.local", [kv("deviceid", "EE:EE:EE:EE:EE:EE")], inst=inst_)]))
     # odd instance names
     out.append(("raop-no-at", [svc("_raop._tcp.local", [kv("am", "AppleTV6,2")], inst="noatsign")]))
     # well-formed DNS framing around records whose RDATA has the wrong size for its type
@@ -432,6 +442,24 @@ def discovery_dynamic(ctx):
                     continue
                 jobs.append({"mode": "u", "feed": per + [(one * rep)[:max(rep, len(one))]]})
                 meta.append(("hostile", si, hname, tag))
+    # the third scanner: scan(aiozc=...) reads a zeroconf cache that holds everybody's records
+    def records_of(dgs):
+        out = []
+        for d in dgs:
+            if "msg" in d:
+                out += d["msg"]["answers"] + d["msg"]["additional"]
+        return out
+    for si0, good in enumerate(scenarios):
+        si = "z%d" % si0
+        jobs.append({"mode": "z", "records": records_of(good), "feed": []})
+        meta.append(("base", si, None, None))
+        for hi, (hname, hd) in enumerate(hostile):
+            if hname.startswith("garbage") or hname in ("ptr-loop", "huge-counts", "ones", "truncated-answer"):
+                continue      # raw datagrams are parsed by the zeroconf library, not by pyatv
+            if not ctx.thorough and (hi % nscen) != si0 and not hname.startswith(("non-ascii", "sleep", "odd-", "bare", "srv-only", "dangling", "ptr-to", "port0", "no-txt")):
+                continue
+            jobs.append({"mode": "z", "records": records_of(good) + records_of(hd), "feed": []})
+            meta.append(("hostile", si, hname, "zeroconf-cache"))
     res = run_scans(jobs)
     base = {}
     total = 0
@@ -451,12 +479,13 @@ def discovery_dynamic(ctx):
         ctx.case(("discover", si, hname, pos), nontrivial=True,
                  sample={"scenario": si, "hostile": hname, "position": pos, "good_devices": len(b), "error": err} if total % 97 == 1 else None)
         ctx.count("discover:" + hname.split(":")[0])
-        replay = {"part": "discover", "hostile": hname, "position": pos, "mode": job.get("mode", "m"), "feed": job["feed"], "expected_addresses": sorted(b)}
+        replay = {"part": "discover", "hostile": hname, "position": pos, "mode": job.get("mode", "m"), "feed": job["feed"], "records": job.get("records"), "expected_addresses": sorted(b)}
         if err is not None:
             if r is not None and r.get("hang"):
                 key = "C05:discover:scan-hangs"
             else:
-                key = ("C05:discover:service-info-barrier" if ("rpfl" in hname or ":sf=" in hname or "features" in hname or "flags" in hname)
+                key = ("C05:discover:zeroconf-scan-raises" if job.get("mode") == "z" else
+                       "C05:discover:service-info-barrier" if ("rpfl" in hname or ":sf=" in hname or "features" in hname or "flags" in hname)
                        else "C05:discover:device-info-barrier" if "wama" in hname else "C05:discover:scan-raises")
             ctx.violation(key, "scan() %s with one hostile announcement (%s) among %d well-formed devices" % ("did not return" if "hangs" in key else "raised " + err, hname, len(b)), replay)
             continue
@@ -546,7 +575,7 @@ def replay(ctx, path):
         a, b, c = BOUNDS[r["dec"]]
         return 1 if (res[0].get("hang") or res[0]["events"] > a * n * n + b * n + c) else 0
     if r.get("part") == "discover":
-        res = run_scans([{"mode": r.get("mode", "m"), "feed": r["feed"]}])[0]
+        res = run_scans([{"mode": r.get("mode", "m"), "feed": r["feed"], "records": r.get("records")}])[0]
         if res.get("err"):
             print("scan failed:", res["err"])
             return 1
